@@ -59,6 +59,20 @@ def _case(draw, shard):
             alt = min(depth, (draw(st.sampled_from([20, 25, 16])) if hi else draw(st.sampled_from([3, 1, 5]))) * depth // 100 + m % 3)
             rows.append(dict(mutation_id="mut_%s" % "abcdefghijklmnop"[m], sample_id="s%d" % s, ref_counts=depth - alt, alt_counts=alt, major_cn=major, minor_cn=minor, normal_cn=normal, tumour_content=t, error_rate=eps))
     chains = [2, 3, 2, 1, 3, 2][shard % 6]
+    clusters = None
+    if heavy:
+        # pre-clustered input with one cluster of 52 mutations (summing many grids is where a parallel reduction would go)
+        base_rows = list(rows)
+        rows = []
+        clusters = {}
+        for r in base_rows:
+            m_id = r["mutation_id"]
+            reps = 52 if m_id == "mut_a" else 1
+            for j in range(reps):
+                rr = dict(r, mutation_id="%s_%d" % (m_id, j), alt_counts=min(r["ref_counts"] + r["alt_counts"], r["alt_counts"] + (j % 3)))
+                rr["ref_counts"] = r["ref_counts"] + r["alt_counts"] - rr["alt_counts"]
+                rows.append(rr)
+                clusters[rr["mutation_id"]] = "abcdefghijklmnop".index(m_id[-1])
     variants = []
     for v in range(3):
         rev = draw(st.sampled_from([True, False])) or v == shard % 3
@@ -81,6 +95,7 @@ def _case(draw, shard):
         subtree_prob=draw(st.sampled_from([0.0, 0.5])),
         conc_update=(shard % 4 != 2),
         variants=variants,
+        clusters=clusters,
     )
 
 
@@ -95,11 +110,13 @@ def budget(ctx):
 def _launch(case, td, name, hashseed, aff, delays):
     out = os.path.join(td, name + ".pkl.gz")
     kw = dict(
-        in_file=os.path.join(td, "in.tsv"), out_file=out, burnin=1, num_iters=case["iters"], num_particles=case["N"], grid_size=11, seed=case["seed"], num_chains=case["chains"],
+        in_file=os.path.join(td, "in.tsv"), out_file=out, cluster_file=(os.path.join(td, "clusters.tsv") if case.get("clusters") else None), burnin=1, num_iters=case["iters"], num_particles=case["N"], grid_size=11, seed=case["seed"], num_chains=case["chains"],
         proposal=case["proposal"], outlier_prob=case["outlier_prob"], subtree_update_prob=case["subtree_prob"], concentration_update=case["conc_update"], print_freq=1000, density="binomial",
     )
     env = dict(os.environ)
-    env.update(PYTHONPATH="%s:%s" % (VERIF, os.environ.get("PHYCLONE_REPO", "/repo")), PYTHONHASHSEED=hashseed, PYTHONDONTWRITEBYTECODE="1", VP_DELAYS=json.dumps(delays or {}), OMP_NUM_THREADS="1", NUMBA_NUM_THREADS="1")
+    env.update(PYTHONPATH="%s:%s" % (VERIF, os.environ.get("PHYCLONE_REPO", "/repo")), PYTHONHASHSEED=hashseed, PYTHONDONTWRITEBYTECODE="1", VP_DELAYS=json.dumps(delays or {}))
+    for k in ("OMP_NUM_THREADS", "NUMBA_NUM_THREADS", "OPENBLAS_NUM_THREADS", "MKL_NUM_THREADS"):
+        env.pop(k, None)
     if aff is not None:
         env["VP_AFF"] = str(aff % (os.cpu_count() or 1))
     else:
@@ -131,6 +148,8 @@ def evaluate(case):
     os.makedirs(SCRATCH, exist_ok=True)
     with tempfile.TemporaryDirectory(dir=SCRATCH) as td:
         po.write_table(case["rows"], os.path.join(td, "in.tsv"))
+        if case.get("clusters"):
+            po.write_clusters(case["clusters"], os.path.join(td, "clusters.tsv"))
         runs = [("ref", "0", None, {})] + [("v%d" % i, v["hashseed"], v["aff"], v["delays"]) for i, v in enumerate(case["variants"])]
         procs = [(_launch(case, td, *r), r) for r in runs]
         outs = {}
